@@ -399,8 +399,8 @@ func evaluate(c Case) (vev.Outcome, error) {
 // generators
 
 var (
-	propNames  = []string{"EMAIL", "FN", "TEL", "NICKNAME", "X-A", "N", "UID"}
-	paramNames = []string{"TYPE", "PREF", "X-P"}
+	propNames  = []string{"EMAIL", "FN", "TEL", "NICKNAME", "X-A", "N", "UID", "email", "X-ABLabel", "x-jabber", "Fn"} // names in lower and mixed case after C09-s13: they cross unaltered
+	paramNames = []string{"TYPE", "PREF", "X-P", "type", "Pref"}
 )
 
 func genText() *rapid.Generator[string] {
